@@ -12,7 +12,8 @@ pipemap.install()      # shape-map runs (cfg["smap"]) go through Model.RunMap / 
 
 class Spec(pipeprops.PropSpec):
     pid = "C12"
-    theorems = "C12_keys_monotone, C12_figures_threshold_free (see Props/C12.v)"
+    theorems = "see Props/C12.v (names are read from the file at run time)"
+    uses_bin64 = True
     projection = staticmethod(pipeprops.proj_figures)
     projection_name = "per shape label, instance count, constraint keys and all figures (lines and comments)"
     rule = ("graphs as C01 x a grid of thresholds containing 0, 1, every k/n boundary of the class sizes present and a "
